@@ -265,15 +265,22 @@ Definition sort_amap {V} (l : list (N * V)) : list (N * V) :=
 Definition load_winners (m : mstate) : list (N * ver) * list ver :=
   fold_left load_step (map snd (m_kvf m)) ([], []).
 
-(* [g] is the value of the process-global counter found by Load: sequence.Set is a
-   compare-and-swap from 0, so a counter that is already non-zero is left alone *)
-Definition reopen_with (g : N) (m : mstate) : mstate :=
+(* [g] is the value of the process-global counter found by Load.  sequence.Set raises the
+   counter to the largest loaded sequence (fix for defect D1); the original code only set
+   it when it was still 0 (compare-and-swap from 0). *)
+Definition seq_set_fixed (g mx : N) : N := N.max g mx.
+Definition seq_set_orig (g mx : N) : N := if N.eqb g 0 then mx else g.
+
+Definition reopen_gen (setseq : N -> N -> N) (g : N) (m : mstate) : mstate :=
   let (win, del) := load_winners m in
   let maxseq := fold_left (fun a p => N.max a (v_seq (snd p))) win 1 in
   let stores := sort_amap (map (fun p => (fst p, [snd p])) win) in
-  let m1 := mkm (if N.eqb g 0 then maxseq else g)   (* sequence.Set: CAS from 0 *)
+  let m1 := mkm (setseq g maxseq)
                 [] [(0, stores)] stores (m_cont m) (m_kvf m) [] (m_nexttx m) (m_nextcid m) in
   enqueue m1 del.
+
+Definition reopen_with := reopen_gen seq_set_fixed.
+Definition reopen_with_orig := reopen_gen seq_set_orig.
 
 (* Close; Open in the same process: the counter keeps its value *)
 Definition reopen (m : mstate) : mstate := reopen_with (m_seq m) m.
